@@ -24,7 +24,7 @@ func init() {
 		Rule: "one run = N searches pipelined on one connection (N in {2,8,64}; up to 512 in thorough); each handler first joins a barrier that opens only when all N handlers have entered " +
 			"(simultaneity is proven, not assumed), then writes K entries with unique ids (h=<message id>,j=<seq>) whose payload is a function of (h,j,len), len cycling through {3,100,5000,70000} " +
 			"(below/above the 4096-byte write buffer), then SearchDone; every Write result is logged. Runs cover plain / TLS-listener / StartTLS-upgraded transports x eager / back-pressure reading x GOMAXPROCS {1,2,4,16}, " +
-			"under the race detector; plus thousands of small bursts (2..4 writers, then silence) on one long-lived connection, where every frame of a burst must arrive before the client sends anything else; and runs in which the server is stopped while handlers are writing and the client keeps pipelining (gldap's own shutdown notice shares the stream); runs against a server with a write timeout in which a frame larger than every socket buffer is written to a client that reads again only after a Write has failed, followed by a further request; victim connections that reset in the middle of a response before and between the writer rounds; and connections that stay in use after one to three Writes panicked while encoding (recovered). Oracle: strict incremental parse; multiset of ids == set of successful writes; per-writer order; payload check. " +
+			"under the race detector; plus thousands of small bursts (2..4 writers, then silence) on one long-lived connection, where every frame of a burst must arrive before the client sends anything else; and runs in which the server is stopped while handlers are writing and the client keeps pipelining (gldap's own shutdown notice shares the stream); runs against a server with a write timeout in which a frame larger than every socket buffer is written to a client that reads again only after a Write has failed, followed by a further request; victim connections that reset in the middle of a response before and between the writer rounds; connections that stay in use after one to three Writes panicked while encoding (recovered); single frames whose encoded size sweeps the neighbourhood of the write buffer size, each followed by silence; and pipelines that end with an Unbind so that the server closes while the slow client still has most frames to read. Oracle: strict incremental parse; multiset of ids == set of successful writes; per-writer order; payload check. " +
 			"distinct_nontrivial = distinct cross-writer interleaving signatures (order of writer ids in the received stream) with at least one cross-writer switch",
 		Assume: []string{"the client-side parser (internal/sber) is strict and independent of asn1-ber"},
 		Phases: func(tier string, seed int64) []Phase {
@@ -38,7 +38,7 @@ func init() {
 			}
 			return ps
 		},
-		MinObserved: []string{"frames_checked", "cross_writer_switches", "barrier_openings", "bursts_fully_answered_without_further_traffic", "stops_during_concurrent_writes", "write_timeout_runs", "victim_connections_reset_mid_response", "connections_used_after_a_panic_inside_write"},
+		MinObserved: []string{"frames_checked", "cross_writer_switches", "barrier_openings", "bursts_fully_answered_without_further_traffic", "stops_during_concurrent_writes", "write_timeout_runs", "victim_connections_reset_mid_response", "connections_used_after_a_panic_inside_write", "single_frames_around_the_write_buffer_size", "runs_in_which_the_server_closes_before_the_client_has_read_everything"},
 	})
 }
 
@@ -59,6 +59,9 @@ type c05Cfg struct {
 	K         int
 	Transport string // plain tls starttls
 	Slow      bool
+	// Unbind: an Unbind rides behind the pipeline, so that it is the SERVER that closes the connection - as soon as the
+	// handlers are done, possibly long before the (slow) client has read what they wrote
+	Unbind bool
 }
 
 // slowReader sips from the connection in small chunks with pauses for the
@@ -212,6 +215,10 @@ func c05One(c *Ctx, pki *PKI, cfg c05Cfg, r *Rand) {
 		ids[id] = true
 		all = append(all, sber.Message(id, sber.Search{Base: []byte("dc=x"), Scope: 2, Filter: sber.PresentFilter("objectClass"), Attrs: [][]byte{}}.Node(), nil).Encode()...)
 	}
+	if cfg.Unbind {
+		all = append(all, sber.Message(base+int64(cfg.N)+5, sber.UnbindRequest(), nil).Encode()...)
+		c.Count("runs_in_which_the_server_closes_before_the_client_has_read_everything", 1)
+	}
 	go func() {
 		conn.SetWriteDeadline(time.Now().Add(2 * patience))
 		conn.Write(all)
@@ -330,7 +337,7 @@ func c05One(c *Ctx, pki *PKI, cfg c05Cfg, r *Rand) {
 		}
 		c.Distinct("interleavings", fmt.Sprintf("%d/%d/%s", cfg.N, cfg.K, sb.String()))
 	}
-	c.Distinct("variants", fmt.Sprintf("%s/slow=%v/N=%d", cfg.Transport, cfg.Slow, cfg.N))
+	c.Distinct("variants", fmt.Sprintf("%s/slow=%v/N=%d/unbind=%v", cfg.Transport, cfg.Slow, cfg.N, cfg.Unbind))
 	if cfg.N == 8 && !cfg.Slow {
 		var head []int64
 		for _, h := range order[:min(len(order), 24)] {
@@ -352,6 +359,15 @@ func c05Bursts(c *Ctx, r *Rand, bursts int) {
 				return
 			}
 			e := req.NewSearchResponseEntry(fmt.Sprintf("h=%d,j=0", sm.GetID()))
+			var plen int
+			if _, err := fmt.Sscanf(sm.BaseDN, "len=%d", &plen); err == nil {
+				// size sweep: ONE frame of the requested payload length, and then silence
+				e.AddAttribute("p", []string{string(c05Payload(sm.GetID(), 0, plen))})
+				if w.Write(e) == nil {
+					okWrites.Add(1)
+				}
+				return
+			}
 			e.AddAttribute("p", []string{string(c05Payload(sm.GetID(), 0, 40))})
 			if w.Write(e) == nil {
 				okWrites.Add(1)
@@ -373,18 +389,33 @@ func c05Bursts(c *Ctx, r *Rand, bursts int) {
 	}
 	defer cl.Close()
 	id := int64(1)
-	for b := 0; b < bursts; b++ {
+	// size sweep first: single frames whose encoded length runs through the neighbourhood of the 4096-byte write buffer
+	// (and of twice that), each followed by silence until it has arrived
+	var sweep []int
+	for n := 3960; n <= 4130; n++ {
+		sweep = append(sweep, n)
+	}
+	for n := 8100; n <= 8230; n += 1 + bursts%2 {
+		sweep = append(sweep, n)
+	}
+	for b := 0; b < bursts+len(sweep); b++ {
 		n := 2 + r.Intn(3)
+		per := 2
+		base := "dc=x"
+		if b < len(sweep) {
+			n, per, base = 1, 1, fmt.Sprintf("len=%d", sweep[b])
+			c.Count("single_frames_around_the_write_buffer_size", 1)
+		}
 		var all []byte
 		want := map[int64]int{}
 		for i := 0; i < n; i++ {
 			id++
-			want[id] = 2
-			all = append(all, sber.Message(id, sber.Search{Base: []byte("dc=x"), Scope: 2, Filter: sber.PresentFilter("objectClass"), Attrs: [][]byte{}}.Node(), nil).Encode()...)
+			want[id] = per
+			all = append(all, sber.Message(id, sber.Search{Base: []byte(base), Scope: 2, Filter: sber.PresentFilter("objectClass"), Attrs: [][]byte{}}.Node(), nil).Encode()...)
 		}
 		cl.Send(all)
 		got := 0
-		for got < 2*n {
+		for got < per*n {
 			m, err := cl.ReadMsg(5 * time.Second)
 			if err != nil {
 				if !isTimeout(err) {
@@ -392,7 +423,7 @@ func c05Bursts(c *Ctx, r *Rand, bursts int) {
 					return
 				}
 				// B expired with the connection silent: is the frame stranded until later traffic?
-				missing := 2*n - got
+				missing := per*n - got
 				id++
 				cl.Send(sber.Message(id, sber.Search{Base: []byte("dc=x"), Scope: 2, Filter: sber.PresentFilter("objectClass"), Attrs: [][]byte{}}.Node(), nil).Encode())
 				late := 0
@@ -406,7 +437,7 @@ func c05Bursts(c *Ctx, r *Rand, bursts int) {
 						late++
 					}
 				}
-				c.Violate("frame withheld or lost although its Write returned nil", fmt.Sprintf("burst %d of %d writers: %d of %d frames had not arrived 5s after the burst while the connection was silent (%d successful writes so far); %d of them arrived only after a later request caused more writes", b, n, missing, 2*n, okWrites.Load(), late),
+				c.Violate("frame withheld or lost although its Write returned nil", fmt.Sprintf("burst %d of %d writers: %d of %d frames had not arrived 5s after the burst (request base %q) while the connection was silent (%d successful writes so far); %d of them arrived only after a later request caused more writes", b, n, missing, per*n, base, okWrites.Load(), late),
 					map[string]any{"burst": b, "writers": n, "missing": missing, "arrived_after_later_traffic": late})
 				return
 			}
@@ -898,6 +929,9 @@ func c05Run(c *Ctx) {
 						kk = 3
 					}
 					c05One(c, pki, c05Cfg{N: n, K: kk, Transport: tr, Slow: slow}, r.Sub(fmt.Sprintf("%d/%s/%v/%d", rep, tr, slow, n)))
+					if slow && n <= 64 {
+						c05One(c, pki, c05Cfg{N: n, K: kk, Transport: tr, Slow: true, Unbind: true}, r.Sub(fmt.Sprintf("%d/%s/unbind/%d", rep, tr, n)))
+					}
 				}
 			}
 		}
